@@ -650,6 +650,10 @@ size_t SCPI_ResultArbitraryBlockHeader(scpi_t * context, size_t len) {
     context->arbitrary_remaining = len;
     result  = writeDelimiter(context);
     result += writeData(context, block_header, header_len + 2);
+    if (len == 0) {
+        /* an empty block is complete with its header */
+        context->output_count++;
+    }
     return result;
 }
 
@@ -669,7 +673,8 @@ size_t SCPI_ResultArbitraryBlockData(scpi_t * context, const void * data, size_t
 
     context->arbitrary_remaining -= len;
 
-    if (context->arbitrary_remaining == 0) {
+    /* the block is one result item once its last byte is there; no data at all completes nothing */
+    if ((len > 0) && (context->arbitrary_remaining == 0)) {
         context->output_count++;
     }
 
